@@ -5,7 +5,7 @@
 //       nsh=N shseed=N meta=<k/v,...> disc=<sch/tr/ep/pr,...> fb=<uri/pr,...> tcb=N adv=<str>
 //       hasdig=0|1 digseed=N
 //         <str> is  h<hex bytes>  (literal)  or  g<len>.<seed>  (generated pattern)
-//   dec kind=.. x=<hex of the characters>   |   dec kind=.. g=<len>.<seed>.<alphabet 0|1|2>
+//   dec kind=.. x=<hex of the characters>   |   dec kind=.. g=<len>.<seed>.<alphabet 0|1|2>      [nox=1: log the input summarised only]
 // Every operation runs in a forked worker under a 5 s watchdog; a worker that dies (sanitizer
 // abort, signal, watchdog) gives a "crash" event and the next worker continues after it; an operation
 // during which UBSan printed a report gives a "crash" event with "recovered":true.
@@ -288,7 +288,7 @@ static void run_one(const ev::Cmd& c) {
         catch (...) { dec = {"other", "unknown"}; }
         g_sh->phase = 0;
         if (std::string ub = ub_since_mark(); !ub.empty()) { crash_event(c, "dec", ub, true); return; }
-        bool exact = x.size() <= kExactUri && (dec.res != "ok" || all_full(d));
+        bool exact = !c.has("nox") && x.size() <= kExactUri && (dec.res != "ok" || all_full(d));
         ev::Ev e("dec");
         e.s("kind", c.s("kind", "")).raw("x", summ(x, exact ? kExactUri : 0)).b("exact", exact).s("res", dec.res).s("type", dec.type);
         if (dec.res == "ok" && exact) e.raw("d", jmanifest(d));
